@@ -4,4 +4,4 @@
 f=$(readlink -f "$1"); pkg=$2; name=$3; repo=${4:-/repo}
 d=$(mktemp -d); trap 'rm -rf "$d"' EXIT
 printf '{"Replace":{"%s/%s/zz_known_test.go":"%s"}}' "$repo" "$pkg" "$f" > "$d/ov.json"
-cd "$repo/$pkg" && GOFLAGS=-mod=mod GOPROXY=off GOSUMDB=off GOTOOLCHAIN=local go test -overlay "$d/ov.json" -vet=off -count=1 -timeout 60s -run "^$name\$" -v . 2>&1 | tail -8
+cd "$repo/$pkg" && GOFLAGS=-mod=mod GOPROXY=off GOSUMDB=off GOTOOLCHAIN=local go test -overlay "$d/ov.json" -vet=off -count=1 -timeout 60s -run "$name" -v . 2>&1 | tail -${KNOWN_TAIL:-8}
